@@ -496,3 +496,8 @@ def run(F, res, tier):
     bad = [k for k in R["panic_sites"] if "|" + PM.P + "bump|" in k]
     res.ob("L6", "bump-never-past-end", "no bump() is reachable at end of input (pos never exceeds tokens.len())", not bad,
            where=LOC, how="engine P: %d contexts, EOF excluded at all %d bump sites" % (R["contexts"], len(R["bumps"])) if not bad else str(bad))
+
+
+def thorough(F, res):
+    from lib import pcache as _pc
+    _pc.crosscheck(F, res)
